@@ -438,6 +438,7 @@ class ConnectionState:
             # selection for its own answer must not outlive it
             if self._selected is not None:
                 self._selected.hide_expunged = False
+                self._selected.unsilence()
             raise
         if selected is not None:
             self._selected, untagged = selected.fork(cmd)
